@@ -214,6 +214,92 @@ fn gen_history(p: &mut Prng, arch: Arch, n_ops: usize) -> Hist {
     Hist { ops }
 }
 
+/// Adversarial CFI: frames of size zero whose return addresses and frame pointers come from
+/// registers or from slots arranged so that the walk would alternate between two functions
+/// forever if a progress check were missing (C10). On a correct unwinder these walks end with
+/// an error or with the frame pointer fallback; the walk oracle checks that no state repeats.
+fn gen_adversarial(p: &mut Prng, arch: Arch) -> Hist {
+    let base = 0x40_0000u64;
+    let a_off = 0x100u64;
+    let b_off = 0x200u64;
+    let zero_cfa = |p: &mut Prng| match p.below(3) {
+        0 => Cfa::RegOff(DReg::Sp, 0),
+        1 => Cfa::RegOff(DReg::Fp, 0),
+        _ => Cfa::RegOff(DReg::Sp, *p.pick(&[0i64, 0, 8, 16])),
+    };
+    let variant = p.below(4);
+    let (row_a, row_b) = match variant {
+        // return addresses in two different slots above the (unchanged) stack pointer
+        0 => (
+            RowSpec { cfa: zero_cfa(p), fp: RR::Same, ra: RR::Offset(8) },
+            RowSpec { cfa: zero_cfa(p), fp: RR::Same, ra: RR::Offset(16) },
+        ),
+        // return address and frame pointer swap through registers
+        1 => (
+            RowSpec { cfa: zero_cfa(p), fp: RR::Register(DReg::Ra), ra: RR::Register(DReg::Fp) },
+            RowSpec { cfa: zero_cfa(p), fp: RR::Register(DReg::Ra), ra: RR::Register(DReg::Fp) },
+        ),
+        // value-offset rules: return address computed from the CFA
+        2 => (
+            RowSpec { cfa: zero_cfa(p), fp: RR::Same, ra: RR::Offset(8) },
+            RowSpec { cfa: zero_cfa(p), fp: RR::Offset(16), ra: RR::Offset(24) },
+        ),
+        _ => (gen_row(p, arch), RowSpec { cfa: zero_cfa(p), fp: RR::Same, ra: RR::Offset(8) }),
+    };
+    let spec = ModSpec {
+        start: base,
+        end: base + 0x1000,
+        base_avma: base,
+        base_svma: 0,
+        data: DataSpec::Dwarf(
+            *p.pick(&[Pres::Hdr, Pres::Idx, Pres::Dbg]),
+            vec![
+                FdeSpec { start: a_off, len: 0x80, rows: vec![(0, row_a)], eval_fails: false, pac: false },
+                FdeSpec { start: b_off, len: 0x80, rows: vec![(0, row_b)], eval_fails: false, pac: false },
+            ],
+        ),
+        enc: PtrEnc::Abs8,
+        hdr_abs: true,
+        dbg_version: 4,
+        n_cies: 1,
+    };
+    let a_ra = base + a_off + 0x11; // return address into A (lookup a_ra - 1 lies in A)
+    let b_ra = base + b_off + 0x21;
+    let sp = 0x7ffc_0000_1000u64;
+    let mut ops = vec![
+        Op::Mod { m: "m0".into(), spec },
+        Op::New { u: "u0".into() },
+        Op::NewCache { c: "c0".into() },
+        Op::Add { u: "u0".into(), m: "m0".into() },
+    ];
+    for round in 0..3u64 {
+        let fp = match (variant, round) {
+            (1, _) => b_ra,
+            (_, 0) => sp,
+            (_, 1) => sp + 0x40,
+            _ => 0,
+        };
+        let pc = base + a_off + 0x10 + round;
+        let regs = match arch {
+            Arch::X64 => {
+                let mut r = [0u64; 16];
+                r[7] = sp;
+                r[6] = fp;
+                RegsAny::X(crate::rules::RegsX { ip: pc, r })
+            }
+            Arch::A64 => RegsAny::A(crate::rules::RegsA { mask: u64::MAX, lr: b_ra, sp, fp }),
+        };
+        let mut mem = crate::mem::MemDesc::new(crate::mem::Dflt::Const(a_ra));
+        mem.set(sp + 8, Some(b_ra));
+        mem.set(sp + 16, Some(a_ra));
+        mem.set(sp + 24, Some(b_ra));
+        mem.set(sp, Some(if round == 2 { a_ra } else { b_ra }));
+        mem.set(sp.wrapping_sub(8), Some(b_ra));
+        ops.push(Op::Iter { u: "u0".into(), c: "c0".into(), pc, regs, mem, extra: 0, max: 24 });
+    }
+    Hist { ops }
+}
+
 fn add_oracle(rep: &mut Report, props: &[&str], key: &str, what: String, case: String, impl_out: &str) {
     rep.add_finding(Finding {
         props: props.iter().map(|s| s.to_string()).collect(),
@@ -776,7 +862,7 @@ pub fn run(tier: &str, seed: u64) -> Report {
     for i in 0..n_hist {
         let arch = if i % 2 == 0 { Arch::X64 } else { Arch::A64 };
         let len = 10 + p.below(n_ops as u64) as usize;
-        let h = gen_history(&mut p, arch, len);
+        let h = if i % 16 == 15 { gen_adversarial(&mut p, arch) } else { gen_history(&mut p, arch, len) };
         match arch {
             Arch::X64 => run_history::<X64H<MayAllocateDuringUnwind>>(&mut rep, &h, i, &mut gens_x),
             Arch::A64 => run_history::<A64H<MayAllocateDuringUnwind>>(&mut rep, &h, i, &mut gens_x),
